@@ -8,7 +8,7 @@ CONSTANTS
   PubHLs = {0, 7, 8, 9, 12, 13, 14, 255}
   MaxN = 40
   MaxInt = 1
-  MaxShape = 136
+  MaxShape = 150
   IntAnywhere = FALSE
   TableOn = TRUE
 INVARIANTS TypeOK C14_ServerUp
